@@ -91,7 +91,8 @@ def zip_bytes(members):
                     pass
             else:
                 fname = raw.decode("cp437")
-            zi = zipfile.ZipInfo(fname, date_time=(2001, 9, 9, 1, 46, 40))
+            zcls = zipfile.ZipInfo if (flags.get("utf8") or fname.isascii()) else _CP437Info
+            zi = zcls(fname, date_time=(2001, 9, 9, 1, 46, 40))
             zi.compress_type = zipfile.ZIP_DEFLATED
             if kind == "d":
                 if not zi.filename.endswith("/"):
@@ -104,24 +105,16 @@ def zip_bytes(members):
             else:
                 zi.external_attr = (stat.S_IFREG | (flags.get("mode", 0o644))) << 16
                 data = b(payload)
-            if not flags.get("utf8"):
-                # force CP437 storage: ZipInfo._encodeFilenameFlags tries ascii then utf-8 (+flag).
-                # For non-ascii cp437 names we patch the encoder for this entry.
-                _force_cp437(zi)
             z.writestr(zi, data)
     return bio.getvalue()
 
 
-def _force_cp437(zi):
-    name = zi.filename
-    if name.isascii():
-        return
-    raw = name.encode("cp437")
+class _CP437Info(zipfile.ZipInfo):
+    """Stores a non-ASCII name as raw CP437 bytes without the UTF-8 flag (what zip(1) does on POSIX)."""
+    __slots__ = ()
 
-    def enc(self=zi):
-        return raw, self.flag_bits & ~0x800
-
-    zi._encodeFilenameFlags = enc
+    def _encodeFilenameFlags(self):
+        return self.filename.encode("cp437"), self.flag_bits & ~0x800
 
 
 def materialise(spec, root):
